@@ -64,9 +64,8 @@ Definition digit_part (dv : N -> option Z) (base : Z) (s : str) : option (Z * na
 
 Definition split_sign (s : str) : bool * str :=   (* (negative?, rest) *)
   match s with
-  | 43 :: r => (false, r)
-  | 45 :: r => (true, r)
-  | _ => (false, s)
+  | c :: r => if c =? 43 then (false, r) else if c =? 45 then (true, r) else (false, s)
+  | [] => (false, s)
   end.
 
 Definition apply_sign (neg : bool) (z : Z) : Z := if neg then (- z)%Z else z.
@@ -83,9 +82,12 @@ Definition py_int (s : str) : res Z :=
 Definition py_int16 (s : str) : res Z :=
   let '(neg, r) := split_sign (py_strip s) in
   let r' := match r with
-            | 48 :: x :: t => if (x =? 120) || (x =? 88)
-                              then match t with 95 :: t' => t' | _ => t end
-                              else r
+            | z :: x :: t => if (z =? 48) && ((x =? 120) || (x =? 88))
+                             then match t with
+                                  | u :: t' => if u =? 95 then t' else t
+                                  | [] => t
+                                  end
+                             else r
             | _ => r
             end in
   match digit_part hex_val 16 r' with
@@ -132,11 +134,13 @@ Definition py_float (s : str) : res fval :=
                           | None => (0%Z, 0%nat, r)
                           end in
     let '(fp, fpn, r2) := match r1 with
-                          | 46 :: t => match digit_part dec_val 10 t with
-                                       | Some x => x
-                                       | None => (0%Z, 0%nat, t)
-                                       end
-                          | _ => (0%Z, 0%nat, r1)
+                          | c :: t => if c =? 46
+                                      then match digit_part dec_val 10 t with
+                                           | Some x => x
+                                           | None => (0%Z, 0%nat, t)
+                                           end
+                                      else (0%Z, 0%nat, r1)
+                          | [] => (0%Z, 0%nat, r1)
                           end in
     if Nat.eqb (ipn + fpn) 0 then Err EValue
     else
